@@ -125,8 +125,12 @@ type tcase struct {
 	// What follows it is served like everything else.
 	ownRespAt   int
 	ownRespRead string
-	s2s         bool
-	useMux      bool
+	// how the application made that request ("" SendIQ, "IterIQ", "UnmarshalIQ")
+	// and what the answer holds ("" a payload, "empty" <iq .../>, "emptytags"
+	// <iq ...></iq>)
+	ownVia, ownRespShape string
+	s2s                  bool
+	useMux               bool
 	// the session was created for the address example.org and was assigned
 	// test@example.net during negotiation (as resource binding does): stanzas
 	// from example.org are then from somebody else
@@ -374,6 +378,8 @@ func genCase(t *rapid.T) tcase {
 	if tc.outstanding && tc.ws == "" && rapid.Bool().Draw(t, "ownAnswered") {
 		tc.ownRespAt = rapid.IntRange(0, len(tc.elems)).Draw(t, "ownRespAt")
 		tc.ownRespRead = rapid.SampledFrom([]string{"none", "some", "all", "all"}).Draw(t, "ownRespRead")
+		tc.ownVia = rapid.SampledFrom([]string{"", "", "IterIQ", "UnmarshalIQ"}).Draw(t, "ownVia")
+		tc.ownRespShape = rapid.SampledFrom([]string{"", "", "empty", "emptytags"}).Draw(t, "ownRespShape")
 	}
 	return tc
 }
@@ -387,7 +393,7 @@ func (tc tcase) ns() string {
 
 func (tc tcase) String() string {
 	var sb strings.Builder
-	fmt.Fprintf(&sb, "s2s=%v mux=%v own-request-%q-outstanding=%v (answered before element %d, the caller reads %q of the answer) address-assigned-during-negotiation(created as example.org)=%v websocket-session=%q another-goroutine-mid-element-while-handlers-reply=%v", tc.s2s, tc.useMux, outstandingID, tc.outstanding, tc.ownRespAt, tc.ownRespRead, tc.addrChanged, tc.ws, tc.midWriter)
+	fmt.Fprintf(&sb, "s2s=%v mux=%v own-request-%q-outstanding=%v (made through %q, answered before element %d with a %q answer, the caller reads %q of it) address-assigned-during-negotiation(created as example.org)=%v websocket-session=%q another-goroutine-mid-element-while-handlers-reply=%v", tc.s2s, tc.useMux, outstandingID, tc.outstanding, tc.ownVia, tc.ownRespAt, tc.ownRespShape, tc.ownRespRead, tc.addrChanged, tc.ws, tc.midWriter)
 	if tc.useMux {
 		var ks []string
 		for k := range tc.reg {
@@ -668,6 +674,12 @@ func check(t interface {
 	conn := wire.NewConn()
 	conn.FeedString(opts.Header())
 	ownResp := `<iq xmlns="` + ns + `" type="result" id="` + outstandingID + `"><query xmlns="urn:verif:own"><item n="1"/>text</query></iq>`
+	switch tc.ownRespShape {
+	case "empty":
+		ownResp = `<iq xmlns="` + ns + `" type="result" id="` + outstandingID + `"/>`
+	case "emptytags":
+		ownResp = `<iq xmlns="` + ns + `" type="result" id="` + outstandingID + `"></iq>`
+	}
 	for i, e := range tc.elems {
 		if i == tc.ownRespAt {
 			conn.FeedString(ownResp)
@@ -742,7 +754,30 @@ func check(t interface {
 	if tc.outstanding {
 		go func() {
 			defer close(odone)
-			resp, _ := s.SendIQ(octx, xt.El(ns, "iq", []xml.Attr{xt.A("type", "get"), xt.A("id", outstandingID)}, xt.El("urn:xmpp:ping", "ping", nil)).Reader())
+			req := xt.El(ns, "iq", []xml.Attr{xt.A("type", "get"), xt.A("id", outstandingID)}, xt.El("urn:xmpp:ping", "ping", nil)).Reader()
+			switch tc.ownVia {
+			case "IterIQ":
+				iter, _, err := s.IterIQ(octx, req)
+				if err != nil || iter == nil {
+					return
+				}
+				if tc.ownRespRead != "none" {
+					for iter.Next() {
+						if tc.ownRespRead == "some" {
+							break
+						}
+					}
+				}
+				_ = iter.Close()
+				return
+			case "UnmarshalIQ":
+				var v struct {
+					XMLName xml.Name
+				}
+				_ = s.UnmarshalIQ(octx, req, &v)
+				return
+			}
+			resp, _ := s.SendIQ(octx, req)
 			if resp != nil {
 				switch tc.ownRespRead {
 				case "some":
